@@ -1909,8 +1909,24 @@ def q_fifo(chk, program):
         # _process_queue does not take from the queue itself: the consumer reads through a helper (one reader still, if the helper is only used there)
         chk.unknown('Q-FIFO', 'package::one-reader', f"queue.get is not in _process_queue but in {[f'{a}.{b}' for a, b, _ in gets]}: who consumes through it was not followed", IO, gets[0][2])
     else:
-      chk.check(len(gets) == 1 and gets[0][1] == f"{BASE}._process_queue", 'Q-FIFO', 'package::one-reader', file=IO, line=gets[0][2] if gets else 0,
-              expected='queue.get only in _process_queue', found=[f"{a}.{b}" for a, b, _ in gets])
+      # the consumer task is the one reader; a plain (not async) method it calls -- every call site of which lies in _process_queue or in another such
+      # helper -- runs inside that task and is the same reader
+      accepted = {f"{BASE}._process_queue"}
+      for _ in range(3):
+          for a_, b_, _l in gets:
+              if b_ in accepted or not b_.startswith(BASE + '.'):
+                  continue
+              hname = b_.split('.', 1)[1]
+              hfn = methods_of(program).get(b_)
+              if hfn is None or isinstance(hfn, ast.AsyncFunctionDef):
+                  continue
+              sites = [(_enclosing(node)) for mm in program.modules.values() for node in ast.walk(mm.tree)
+                       if isinstance(node, ast.Call) and isinstance(node.func, ast.Attribute) and node.func.attr == hname]
+              named = [n_ for mm in program.modules.values() for n_ in ast.walk(mm.tree) if isinstance(n_, ast.Attribute) and n_.attr == hname and isinstance(n_.ctx, ast.Load)]
+              if sites and len(named) == len(sites) and all(s_ in accepted for s_ in sites):
+                  accepted.add(b_)
+      chk.check(bool(gets) and all(b_ in accepted for _a, b_, _l in gets), 'Q-FIFO', 'package::one-reader', file=IO, line=gets[0][2] if gets else 0,
+              expected='queue.get only in _process_queue (or in a plain helper only it calls)', found=[f"{a}.{b}" for a, b, _ in gets])
     q = f"{BASE}._process_queue"
     g = cfg_of(program, q)
     getn = [x for x, c in nodes_calling(g, lambda c: call_name(c) == 'self.queue.get')]
